@@ -49,8 +49,10 @@ PARTIAL = ("daemon level: the theorem C11_daemon_level_refinement covers the cac
            "ServiceRemoved, AddressesRemoved); the rest of the daemon around that layer (packet decoding, which channel gets the "
            "event, retransmission schedule, resolve logic of unresolved instances) is tied by the K6 correspondence and the "
            "monitor only. What happens when SRV/TXT/address records of a still-listed instance expire before its PTR is left to "
-           "C05/C03 (generated histories keep the PTR the first to expire). That the daemon actually wakes at the marks is C12; "
-           "here the timer-exact runs observe it. The monitor compares canonical renderings (sorted) of the extracted spec_run's "
+           "C05/C03 (generated histories keep the PTR the first to expire). That every refresh mark and every expiry of a "
+           "cached record has a timer is now a theorem over all histories of this model with per-record timer logs "
+           "(Props/C12Cache.v: C12_cache_timers_cover_due_work, incl. renewals, goodbyes, cache-flush, late wake-ups, browse / "
+           "resolve start and stop), and the timer-exact runs observe it on the daemon. The monitor compares canonical renderings (sorted) of the extracted spec_run's "
            "observations with the projected trace; that rendering/sorting is OCaml/Python code, not Coq.")
 
 
